@@ -528,9 +528,9 @@ func checkC18(c *Ctx) {
 		}
 		return false
 	})
-	r.floor("FG/header-consumers", 2, "RequiredField.DoRead, OptionalField.DoRead")
+	r.floor("FG/header-consumers", 1, "RequiredField.DoRead, OptionalField.DoRead")
 	r.floor("FG/codec-switch", 1, "pageData")
-	r.floor("EP/refusal/derived", 2+2*len(u.TC), "generated Read methods -> DoRead, readRowGroup -> Field.Read, NewParquetReader/Next -> readRowGroup")
+	r.floor("EP/refusal/derived", 1+2*len(u.TC), "generated Read methods -> DoRead, readRowGroup -> Field.Read, NewParquetReader/Next -> readRowGroup")
 	r.assume("the header's fields are what thrift decoded from the file; files whose thrift structure is itself malformed are outside C18")
 }
 
